@@ -42,6 +42,23 @@ Example nonvacuous_gc :
   g_files (gc [3; 4] s) = [4; 3] /\ quiescent_ok [3; 4] (gc [3; 4] s) = true.
 Proof. vm_compute. split; reflexivity. Qed.
 
+(* ---- on every history of the writer protocol (Storage/Proto.v: the model behind C01_all_histories) ---- *)
+From TV Require Import Storage.Proto Storage.ProtoProofs.
+(* At every point any history reaches -- commits, rollbacks, merges started and ended, collections (implicit after each
+   commit and merge, or explicit), restarts; worker and merge threads scheduled anywhere against the updater thread --
+   (a) every file of the published commit, of every committed and of every registered uncommitted segment is in the
+       directory with complete data;
+   (b) every file a running job (segment under construction, merge) has created so far is in the directory and every file
+       it has terminated is complete: no collection removes a file of a segment that is being written or merged. *)
+Theorem C10_needed_files_kept_on_every_history : forall ops sc,
+  let st := run_ops_st cfg_code st0 ops sc in
+  let c := run (proto_trace ops sc) in
+  (forall f, In f (segs_files (meta_segs st) ++ segs_files (committed st) ++ segs_files (uncommitted st)) -> okf c f) /\
+  (forall j, In j (jobs st) -> forall f, In f (jfiles j) ->
+     (~ In (ECreate f) (jtodo j) -> present c f) /\ (~ In (ETerminate f) (jtodo j) -> In f (term c))).
+Proof. exact proto_needed_files_kept. Qed.
+
 Print Assumptions C10_gc_safe.
+Print Assumptions C10_needed_files_kept_on_every_history.
 Print Assumptions C10_no_orphan_at_quiescence.
 Print Assumptions C10_gc_never_removes_committed_files.
